@@ -77,7 +77,8 @@ pub fn json_stringify(
 
     // Track visited objects for circular reference detection
     let mut visited = FxHashSet::default();
-    let json = js_value_to_json_with_visited(&value, &mut visited)?;
+    let json =
+        js_value_to_json_with_visited(&value, &mut visited, Interpreter::native_stack_address())?;
 
     let output = match indent {
         JsValue::Number(n) if n > 0.0 => {
@@ -160,14 +161,18 @@ pub fn json_parse(
 /// Convert a JsValue to JSON, with public API for external callers (without circular detection)
 pub fn js_value_to_json(value: &JsValue) -> Result<serde_json::Value, JsError> {
     let mut visited = FxHashSet::default();
-    js_value_to_json_with_visited(value, &mut visited)
+    let stack_base = Interpreter::native_stack_address();
+    js_value_to_json_with_visited(value, &mut visited, stack_base)
 }
 
 /// Convert a JsValue to JSON, tracking visited objects for circular reference detection
 fn js_value_to_json_with_visited(
     value: &JsValue,
     visited: &mut FxHashSet<usize>,
+    stack_base: usize,
 ) -> Result<serde_json::Value, JsError> {
+    // Nesting too deep for the native stack is a RangeError, not a stack overflow
+    Interpreter::check_native_stack_since(stack_base)?;
     Ok(match value {
         JsValue::Undefined => serde_json::Value::Null,
         JsValue::Null => serde_json::Value::Null,
@@ -203,7 +208,7 @@ fn js_value_to_json_with_visited(
                 if let Some(elements) = obj_ref.array_elements() {
                     let mut arr = Vec::with_capacity(elements.len());
                     for val in elements {
-                        arr.push(js_value_to_json_with_visited(val, visited)?);
+                        arr.push(js_value_to_json_with_visited(val, visited, stack_base)?);
                     }
                     serde_json::Value::Array(arr)
                 } else {
@@ -231,8 +236,11 @@ fn js_value_to_json_with_visited(
                             let mut map = serde_json::Map::new();
                             // Add forward mappings (name -> value)
                             for member in &data.members {
-                                let json_val =
-                                    js_value_to_json_with_visited(&member.value, visited)?;
+                                let json_val = js_value_to_json_with_visited(
+                                    &member.value,
+                                    visited,
+                                    stack_base,
+                                )?;
                                 map.insert(member.name.to_string(), json_val);
                             }
                             // Add reverse mappings (numeric value -> name)
@@ -259,7 +267,8 @@ fn js_value_to_json_with_visited(
                             drop(obj_ref); // Release borrow before recursive calls
 
                             for (key, val) in props {
-                                let json_val = js_value_to_json_with_visited(&val, visited)?;
+                                let json_val =
+                                    js_value_to_json_with_visited(&val, visited, stack_base)?;
                                 // Skip undefined values in objects
                                 if json_val != serde_json::Value::Null
                                     || !matches!(val, JsValue::Undefined)
